@@ -525,14 +525,28 @@ class DiscretizedSpace(TensorSpace):
     # only a fraction of the outermost cells (e.g. if the outermost grid
     # points lie at the boundary), the corresponding contributions to
     # discretized integrals need to be scaled by that fraction.
+    def _bdry_scaling_tspace(self):
+        """Tensor space holding the values scaled by boundary cell fractions.
+
+        The scaled values are floating point numbers, hence they cannot be
+        stored in, e.g., an integer ``tspace`` (they would be truncated).
+        """
+        if is_floating_dtype(self.tspace.dtype):
+            return self.tspace
+        else:
+            return self.tspace.astype(float)
+
     def _inner(self, x, y):
         """Return ``self.inner(x, y)``."""
         if self.is_uniform and not self.is_uniformly_weighted:
             # TODO: implement without copying x
             bdry_fracs = self.partition.boundary_cell_fractions
             func_list = _scaling_func_list(bdry_fracs, exponent=1.0)
-            x_arr = apply_on_boundary(x, func=func_list, only_once=False)
-            return self.tspace.inner(self.tspace.element(x_arr), y.tensor)
+            tspace = self._bdry_scaling_tspace()
+            x_arr = apply_on_boundary(np.asarray(x, dtype=tspace.dtype),
+                                      func=func_list, only_once=False)
+            return tspace.inner(tspace.element(x_arr),
+                                tspace.element(y.tensor))
         else:
             return self.tspace.inner(x.tensor, y.tensor)
 
@@ -542,8 +556,10 @@ class DiscretizedSpace(TensorSpace):
             # TODO: implement without copying x
             bdry_fracs = self.partition.boundary_cell_fractions
             func_list = _scaling_func_list(bdry_fracs, exponent=self.exponent)
-            x_arr = apply_on_boundary(x, func=func_list, only_once=False)
-            return self.tspace.norm(self.tspace.element(x_arr))
+            tspace = self._bdry_scaling_tspace()
+            x_arr = apply_on_boundary(np.asarray(x, dtype=tspace.dtype),
+                                      func=func_list, only_once=False)
+            return tspace.norm(tspace.element(x_arr))
         else:
             return self.tspace.norm(x.tensor)
 
@@ -552,12 +568,14 @@ class DiscretizedSpace(TensorSpace):
         if self.is_uniform and not self.is_uniformly_weighted:
             bdry_fracs = self.partition.boundary_cell_fractions
             func_list = _scaling_func_list(bdry_fracs, exponent=self.exponent)
-            arrs = [apply_on_boundary(vec, func=func_list, only_once=False)
+            tspace = self._bdry_scaling_tspace()
+            arrs = [apply_on_boundary(np.asarray(vec, dtype=tspace.dtype),
+                                      func=func_list, only_once=False)
                     for vec in (x, y)]
 
-            return self.tspace.dist(
-                self.tspace.element(arrs[0]),
-                self.tspace.element(arrs[1]),
+            return tspace.dist(
+                tspace.element(arrs[0]),
+                tspace.element(arrs[1]),
             )
         else:
             return self.tspace.dist(x.tensor, y.tensor)
